@@ -1186,9 +1186,13 @@ impl ObjectFile {
         let block_map = block_map.into_iter()
             .map(|(start, ObjBlock { words, .. })| (start, words))
             .collect();
+        // Without debug symbols the symbol table is dropped, unless the file declares external
+        // labels: then the label and relocation tables are needed to link the file, and to refuse
+        // loading it while the externals are unresolved.
+        let has_externals = sym.label_map.values().any(|data| data.external);
         Ok(Self {
             block_map,
-            sym: debug.then_some(sym),
+            sym: (debug || has_externals).then_some(sym),
         })
     }
 
